@@ -1,8 +1,8 @@
 #!/usr/bin/env python3
-"""Writes MANIFEST.json from checks.json + manifest_meta.json (kept in sync by hand-editing those)."""
+"""Writes MANIFEST.json from checks.d/*.json + manifest_meta.json (edit those, then run this)."""
 import json, os, subprocess
 ROOT = os.path.dirname(os.path.abspath(__file__))
-checks = json.load(open(os.path.join(ROOT, "checks.json")))
+checks = {f[:-5]: json.load(open(os.path.join(ROOT, "checks.d", f))) for f in sorted(os.listdir(os.path.join(ROOT, "checks.d"))) if f.endswith(".json")}
 meta = json.load(open(os.path.join(ROOT, "manifest_meta.json")))
 props = [json.loads(l) for l in open(os.path.join(ROOT, "properties.jsonl"))]
 hooks = subprocess.run(["git", "-C", "/repo", "log", "--format=%H %s"], capture_output=True, text=True).stdout.strip().split("\n")
@@ -27,8 +27,8 @@ m = {
 }
 for p in props:
     pid = p["id"]
-    if pid in checks and pid in meta["checks"]:
-        mc = meta["checks"][pid]
+    if pid in checks:
+        mc = checks[pid]
         m["checks"].append({
           "property_id": pid,
           "quick_cmd": f"./check {pid} quick",
